@@ -29,14 +29,14 @@ package whispertool
 //@   ensures ret: validArchive(*a) && fits32(*a) ==> result == retention(*a)
 
 //@ func (*ArchiveInfo).interval
-//@   props C01 C04
+//@   props C01 C04 C06
 //@   requires a != nil && a.secondsPerPoint > 0
 //@   ensures next: t + a.secondsPerPoint <= 4294967295 ==> result == a.secondsPerPoint * (t fdiv a.secondsPerPoint + 1)
 //@   ensures wrapped: result == (t - t fmod a.secondsPerPoint + a.secondsPerPoint) fmod 4294967296
 //@   ensures alignup: t + a.secondsPerPoint <= 4294967295 ==> result == alignUp(t, a.secondsPerPoint)
 
 //@ func (*ArchiveInfo).intervalForWrite
-//@   props C01 C02 C03
+//@   props C01 C02 C03 C06
 //@   requires a != nil && a.secondsPerPoint > 0
 //@   ensures floor: result == a.secondsPerPoint * (t fdiv a.secondsPerPoint)
 //@   ensures le: result <= t && t - result < a.secondsPerPoint
@@ -426,7 +426,7 @@ package whispertool
 // ---------------------------------------------------------------- read path (C01, C04)
 
 //@ func clearOldPoints
-//@   props C01
+//@   props C01 C06
 //@   requires step > 0 && fromInterval + len(points) * step <= 4294967295
 //@   modifies points[0:len(points)]
 //@   ensures times: forall i :: 0 <= i && i < len(points) ==> points[i].Time == fromInterval + i * step
@@ -553,7 +553,7 @@ package whispertool
 //@ spec alignUp(t int, s int) opaque int = s * (t fdiv s + 1)
 
 //@ func (*Whisper).FetchFromArchive
-//@   props C04 C01
+//@   props C04 C01 C06
 //@   requires handleOK(w) && now != 0 && clockOK(w, now)
 //@   requires now - from <= 2147483647
 //@   use alignup_facts(r.secondsPerPoint, from, until) at untilInterval
